@@ -405,6 +405,15 @@ func (e *Engine) expandNode(x *OCtx, id int32) []expandResult {
 		if halt {
 			x.Wit("engine:chain-halt-not-expanded")
 		}
+		if a.Kind == "restart" && !res.OK() && res.Prepared != nil {
+			// the restart was refused after the zero-height preparation had run (C19 reports that); what the preparation
+			// did to the things it must leave alone is judged all the same
+			x.Wit("engine:restart-refused-after-preparation")
+			tp := &Trans{Pre: preV, Act: a, Res: res, Post: x.Rig.Decode(res.Prepared), PreMon: preMon, PostMon: preMon}
+			for _, o := range e.Oracles {
+				viols = append(viols, restartPreserves(o.Prop(), x, tp)...)
+			}
+		}
 		var inv []Violation
 		if !self && !halt {
 			// invariants on the successor; (re-evaluated if the state is reached again, which is harmless)
